@@ -17,7 +17,9 @@
 EXTENDS TrajData
 
 Down(T, n) == IF n = 0 \/ N(T) <= n THEN T ELSE DocReduce(T, IF n = 1 THEN <<1>> ELSE <<1, N(T)>>)        \* n in {1, 2}: no freedom
-MFilt(T, dh) == IF dh = 0 \/ N(T) < 2 THEN T ELSE DocReduce(T, IdsWhere(N(T), LAMBDA k : k \in MotionKeep(T, dh, 1000)))
+\* dh = 2001 stands for "distance threshold never reached, angle threshold 100 degrees" (only rotations keep a pose)
+MFilt(T, dh) == IF dh = 0 \/ N(T) < 2 THEN T
+                ELSE DocReduce(T, IdsWhere(N(T), LAMBDA k : k \in MotionKeep(T, dh, IF dh = 2001 THEN 100 ELSE 1000)))
 \* time-sorted union of two trajectories with disjoint stamps
 MergeT(A, B) ==
   LET all == [k \in 1..(N(A) + N(B)) |-> IF k <= N(A) THEN <<A.stamps[k], A.poses[k]>> ELSE <<B.stamps[k - N(A)], B.poses[k - N(A)]>>]
